@@ -79,11 +79,40 @@ CHECKS['C07'] = dict(text='Same exploration with impl blocks, visibility and nam
              'Field{base field, original}, private ones hidden, signature preserved, own functions last).',
              note='semantic stage only: forwarding body text, AsRef/AsMut emission and the run-time receiver address (base sub-object offset) are not executed; depth 2, <= 2 bases',
              design='4/C07', technique=TECH2)
+TECHB = TECH + '; Kani/CBMC harnesses on the emitted bindings of solver-chosen witness programs'
+CHECKS['C02'] = dict(text='Symbolic execution of the resolution of an extern type, an inner type, an enum over every base and an outer type embedding the inner one by value / '
+             'as array / by pointer (all numerics symbolic, zero-length arrays included): on accepted paths z3 proves every resolved size/alignment equals the repr(C)/'
+             'repr(int) value, that the numbers used for the inner type inside the outer type are the inner type\'s own, and that the compiler would add no padding; '
+             'Kani then checks size_of/align_of/offset_of! of the emitted items of sampled witnesses on the 64-bit host.',
+             note='numerics < 2^4 (quick) / 2^7; repr(C) rule is the reference for width 4 (no 32-bit target available); Engine B covers width 8 witnesses only', design='4/C02', technique=TECHB)
+CHECKS['C09'] = dict(text='Product templates build each description twice in one symbolic run; the hash-map model gives the second build every permutation of the user keys of every '
+             'iterated map (nondeterministic choice): z3 proves both builds agree (both fail, or both succeed with equal summaries) for dependency graphs and for '
+             'signatures/fields/extern values naming generated vftable types; a difference is confirmed natively by disagreeing fresh processes.',
+             note='<= 3 user types; one order per map key-set per path; error texts not compared; file discovery / file bytes outside; one open known finding (signature naming a generated vftable type)', design='4/C09')
+CHECKS['C19'] = dict(text='Product template: module m (+ imported n) built without and with an unrelated module u declaring colliding short names (type R, extern S of another '
+             'symbolic size, RVftable, enum K), importing m or not, added first or last; plus a nested module whose enclosing module gains a same-named type: z3 proves '
+             'the summaries of the observed modules are identical whenever both builds are accepted.',
+             note='summary level (everything write_module reads), not file bytes; one open known finding (type path equal to a nested module path)', design='4/C19')
+CHECKS['C20'] = dict(text='Product template builds a description and its rewrite (explicit address = implicit offset, unknown<g> gap vs address, #[size] = natural size, '
+             '#[index] = implicit slot, enum value = implicit value, reversed definition order; singly and in all combinations; also with a #[base] field after the gap) '
+             'with symbolic sizes/gap/enum value: z3 proves both are accepted or both rejected and the summaries (incl. generated _field_<hex> names as symbolic strings) are identical.',
+             note='summary level, not file bytes; numeric spelling (other base) is a parser matter and outside', design='4/C20')
+for _p in ('C01', 'C04', 'C06', 'C07', 'C08', 'C16'):
+    CHECKS[_p]['technique'] = TECHB if _p not in ('C06', 'C07') else TECH2 + '; Kani/CBMC harnesses on the emitted bindings of witness programs'
+CHECKS['C04']['note'] = 'indices < 6, table size < 8; run-time dispatch (wrapper loads the table pointer, calls its slot once with this + arguments in order, returns the result) is checked by Kani on the emitted code of sampled witnesses with symbolic arguments, 64-bit host, calling conventions normalised to "C"'
+CHECKS['C06']['note'] = 'depth 2, <= 2 bases per type; the reference model is Python evaluated per leaf; Kani checks on emitted witness programs that vftable() returns the word stored in the base sub-object and that wrappers dispatch through inherited tables'
+CHECKS['C07']['note'] = 'depth 2, <= 2 bases; Kani checks on emitted witness programs that forwarded virtual functions see the base sub-object address as receiver and that AsRef/AsMut return it; forwarding to address-bound functions cannot be executed'
+CHECKS['C08']['note'] = 'variants bounded (statement says up to 32); Kani checks `Variant as base`, size/align and Default::default() on emitted witness enums; one open known finding (out-of-range values accepted, required by the repository\'s own test)'
+CHECKS['C16']['note'] = 'the extern "<cc>" strings of every vftable slot and address-bound wrapper in the emitted text of sampled witnesses are compared with the resolved conventions'
+CHECKS['C01']['note'] += '; Kani checks offset_of!/size_of/align_of of the emitted struct for sampled width-8 witnesses'
 NA = {}
 ALL = [json.loads(l)['id'] for l in open('properties.jsonl')]
+NA['C13'] = 'whether the emitted crate type-checks is decided by rustc, not by a solver: there is no symbolic dimension to encode (Engine B compiles every witness program as a side effect and reports compile failures, but no C13 verdict is claimed)'
+NA['C17'] = 'visibility/derives/docs are a pure text mapping performed by the quote!-based backend (backends/rust.rs); interpreting quote/proc_macro2/syn token construction symbolically was not reached within this round, and there is no numeric or path dimension for a solver to decide'
+NA['C18'] = 'the parser is a thin layer over syn::ParseStream and proc_macro2\'s lexer; neither can be executed by Kani in usable time (measured, DESIGN.md section 1) nor interpreted from the MIR dump (external crates), and the quantifier ranges over grammar derivations, which a solver does not decide better than a generator'
 for p in ALL:
     if p not in CHECKS and p not in NA:
-        NA[p] = 'not yet encoded in this round (planned with the same engine; see DESIGN.md section 4)'
+        NA[p] = 'not encoded'
 
 def main():
     hooks_commits = []
